@@ -315,10 +315,14 @@ def init_search(rep, mir, L, prefix='C07.6'):
             accs = [exp(z3.If(z3.Real('E_start') - t[4] <= 0, z3.Real('E_start') - t[4], 0)) for t in trials]
             if len(trials) >= 2:
                 results['kinds'].add('bracket')
-                up = accs[0] > target.v            # first trial above target -> search upward (doubling)
+                # the direction is the code's (doubling = later trials run Forward); what is checked is that it is justified by the first trial and that the
+                # exit brackets the target.  Ties (an acceptance exactly equal to target_accept) may be resolved either way: all comparisons are non-strict.
+                upc = trials[1][2] == 'Forward'; up = z3.BoolVal(upc)
+                sol.push(); sol.add((accs[0] < target.v) if upc else (accs[0] > target.v)); r = sol.check(); sol.pop()
+                if r == z3.sat: results['bad'].setdefault('bracket', ('the search direction contradicts the first trial (doubling although its acceptance is below the target, or halving although above)', where))
                 loop = accs[1:]; last = loop[-1]; earlier = loop[:-1]
-                capped = z3.Or(step > z3.RealVal(100000), step < z3.RealVal('1/10000000000'))
-                brack = z3.If(up, z3.And(last <= target.v, *[e > target.v for e in earlier]), z3.And(last >= target.v, *[e < target.v for e in earlier]))
+                capped = z3.Or(step >= z3.RealVal(100000), step <= z3.RealVal('1/10000000000'))
+                brack = z3.And(last <= target.v, *[e >= target.v for e in earlier]) if upc else z3.And(last >= target.v, *[e <= target.v for e in earlier])
                 sol.push(); sol.add(z3.Not(z3.Or(brack, capped))); r = sol.check(); sol.pop()
                 if r == z3.sat: results['bad'].setdefault('bracket', ('the search stops although the last two trial steps do not bracket target_accept', where))
                 # the adopted step is initial * 2^(+-(n-1)) and the estimator is re-created at it
